@@ -18,7 +18,8 @@ EXPLANATION = ("DataClient: every requests.* call of get_sessions / count_sessio
                "clause; the strftime format of http_date and the strptime format of parse_http_date fold (through module constants) to "
                "the same literal with %H:%M:%S and GMT, http_date converts to UTC first, parse_http_date interprets the parsed time as "
                "UTC and then converts to the document's zone; parse_dates visits every field, converts every string field through "
-               "parse_http_date (ignoring only ValueError) and every element of a nested 'timestamps' list through the same function.")
+               "parse_http_date (ignoring only ValueError) and every element of a nested 'timestamps' list through the same function."
+               ' Added in round 3: caller-supplied texts never become part of a format template (closure through list appends); the generator keeps its paging state in locals (no attribute of the client is written).')
 NOT_DECIDED = "behaviour against a real server; correctness of pytz's zone database"
 
 QUERY_KEYS = {"cond": "where", "project": "project", "sort": "sort"}
